@@ -13,12 +13,13 @@ KINDS = ["succeed", "fail-retry-left", "fail-exhausted", "recurring-succeed"]
 _ITERS = {}
 
 
-def _run_stop(S, kind, n_msgs, with_result, k, g, d=Fraction(5, 1000), tasks_limit=2):
+def _run_stop(S, kind, n_msgs, with_result, k, g, d=Fraction(5, 1000), tasks_limit=2, actor_steps=None):
     from repid import Job, Router, Worker
     from repid.converter import BasicConverter
 
     out = {"iters": None}
     runs = []
+    fired = {}
 
     async def main(loop):
         w = World(results=True)
@@ -28,7 +29,16 @@ def _run_stop(S, kind, n_msgs, with_result, k, g, d=Fraction(5, 1000), tasks_lim
         @r.actor(converter=BasicConverter, retry_policy=lambda retry_number=1: real_timedelta(seconds=30))
         async def job(i: int):
             runs.append(i)
-            await asyncio.sleep(d)
+            if actor_steps is None:
+                await asyncio.sleep(d)
+            else:
+                # the stop request arrives while the actor runs; the actor ends a given number of loop steps later, so the
+                # forced cancellation (graceful period 0) lands before, inside and after its report to the broker
+                if "t" not in fired and loop.fire_signal():
+                    fired["t"] = loop.time()
+                    out["fired_iter_actor"] = loop.iters
+                for _ in range(actor_steps):
+                    await asyncio.sleep(0)
             if kind in (1, 2):
                 raise ValueError("x")
             return i
@@ -49,7 +59,6 @@ def _run_stop(S, kind, n_msgs, with_result, k, g, d=Fraction(5, 1000), tasks_lim
         w.rec.calls.clear()
         worker = Worker(routers=[r], handle_signals=[signal.SIGTERM], _connection=w.conn,
                         graceful_shutdown_time=g, tasks_limit=tasks_limit)
-        fired = {}
 
         def hook(lp):
             if k is not None and lp.iters == base + k and "t" not in fired:
@@ -71,7 +80,7 @@ def _run_stop(S, kind, n_msgs, with_result, k, g, d=Fraction(5, 1000), tasks_lim
         out["iters"] = loop.iters - base
         loop.iter_hook = None
         out["fired"] = fired.get("t")
-        out["fired_iter"] = base + k if k is not None else None
+        out["fired_iter"] = out.get("fired_iter_actor") or (base + k if k is not None else None)
         await asyncio.sleep(0.05)           # loop idle: let cancelled stragglers unwind
         out["calls"] = list(w.rec.calls)
         out["places"] = w.places()
@@ -94,6 +103,10 @@ def h03_stop(S, n_msgs=1, kinds=(0, 1, 2, 3), max_step=90, tasks_limit=2, result
     except Deadlock:
         S.check("run-returns", False, info="deadlock")
         return
+    _stop_oracle(S, out, n_msgs, g)
+
+
+def _stop_oracle(S, out, n_msgs, g):
     S.check("run-returns", out["returned"], info="Worker.run() still running 60 s after start")
     if not out["returned"]:
         return
@@ -133,6 +146,20 @@ def h03_stop(S, n_msgs=1, kinds=(0, 1, 2, 3), max_step=90, tasks_limit=2, result
         elif names == ["dead"]:
             S.cover("dead")
             S.check("dead-only-by-nack", "nack" in started, info=f"{mid}: {trace}")
+
+
+def h03_stop_steps(S, n_msgs=1, kinds=(0, 1, 2, 3), max_steps=12):
+    """As H03-stop-mem, with the stop request placed relative to the end of the actor in loop steps (graceful period 0)."""
+    kind = kinds[S.pick("actor_kind", len(kinds))]
+    with_result = S.flag("store_result")
+    n = S.pick("actor_ends_this_many_loop_steps_after_the_stop_request", max_steps + 1)
+    S.tag("kind", KINDS[kind])
+    try:
+        out = _run_stop(S, kind, n_msgs, with_result, k=None, g=0, actor_steps=n)
+    except Deadlock:
+        S.check("run-returns", False, info="deadlock")
+        return
+    _stop_oracle(S, out, n_msgs, 0)
 
 
 def h03_redis_death(S):
@@ -388,6 +415,15 @@ def h03_redis_stop(S, max_step=140):
 
 
 HARNESSES = [
+    Harness(
+        name="H03-stop-steps", scenario=h03_stop_steps, workers=16, budget_s=900,
+        params={"quick": {"n_msgs": 1, "max_steps": 12}, "thorough": {"n_msgs": 2, "max_steps": 20}},
+        bounds={"stop request": "arrives while the actor runs; the actor ends 0..12 (quick) / 0..20 (thorough) loop steps later", "graceful period": "0",
+                "actor": "succeeds / fails with a retry left / fails exhausted / recurring success", "result storing": "on/off"},
+        functions=["_runner.py:_Runner._process_with_event", "_processor.py:_Processor.process", "_runner.py:_Runner.finish_gracefully"],
+        covers=["stopped"],
+        stubs=["signal delivery = the captured handler is called from inside the actor"],
+    ),
     Harness(
         name="H03-stop-saturated", scenario=h03_stop, workers=16, budget_s=900,
         params={"quick": {"n_msgs": 2, "kinds": (0, 1), "tasks_limit": 1, "results": (False,)},
